@@ -18,24 +18,32 @@ PROP = dict(
                "fe_fits(1, 192204552, 3338477), fe_fits(1, 284284038, 5007716) hold by computation, hence "
                "calc_blob_gasprice(excess, is_prague) == fe_spec(1, excess, 3338477 | 5007716) >= 1 for EVERY "
                "excess_blob_gas <= N0 with N0 = 192204552 (Cancun fraction) / 284284038 (Prague fraction); these N0 are the "
-               "exact maxima (lemma_domain_is_tight: N0+1 does not fit). calc_excess_blob_gas(e,u,t) == max(0, e+u-t) "
-               "(mathematical) for all arguments with e+u <= u64::MAX. Constants checked against the EIPs' literals "
+               "exact maxima (lemma_domain_is_tight: N0+1 does not fit). calc_excess_blob_gas(e,u,t) == min(max(0, e+u-t), 2^64-1) "
+               "(mathematical) for ALL arguments, no precondition: exact whenever the EIP value is representable in u64, "
+               "saturating otherwise (since /repo fix e68fb997 the sum is formed in u128). Constants checked against the EIPs' literals "
                "(GAS_PER_BLOB 131072, MIN_BLOB_GASPRICE 1, update fractions 3338477 / 5007716, targets 3*/6*GAS_PER_BLOB "
                "== 393216 / 786432). BlobExcessGasAndPrice::new / from_parent_and_target and "
                "BlockEnv::set_blob_excess_gas_and_price: whole-value postconditions (stored excess, stored price == "
                "fe_spec, all other BlockEnv fields unchanged). TxEnv::get_total_blob_gas == 131072 * blob count.",
     level_note="DOMAIN: the price contract is stated on fe_fits (precondition), i.e. excess_blob_gas <= 192204552 / "
-               "284284038 (about 489 / 723 consecutive full blocks, +393216 excess each; the price there is about 1e25 / 4.5e24 wei per blob gas); the excess contract on "
-               "parent_excess + parent_used <= u64::MAX. OUTSIDE these domains the code is NOT exact and the unit proves it "
-               "cannot be: lemma_gap_between_result_fits_and_code_fits shows the EIP value at N0+1 is about 2^83 (fits in 128 "
+               "284284038 (about 489 / 723 consecutive full blocks, +393216 excess each; the price there is about 1e25 / 4.5e24 wei per blob gas). OUTSIDE this domain the code is NOT exact and the unit "
+               "proves it cannot be: lemma_gap_between_result_fits_and_code_fits shows the EIP value at N0+1 is about 2^83 (fits in 128 "
                "bits) while `numerator_accum * numerator` exceeds 2^128. FINDING (reproduced on the real crate, release "
                "profile = no overflow checks): fake_exponential(1, 192204553, 3338477) returns 5089730449835472321748656, the "
                "EIP value is 10079296854086811361005191; calc_blob_gasprice(200000000, false) returns "
-               "5448248405279283718928058 instead of 104116911553853437920042949; calc_excess_blob_gas(u64::MAX, 1, 393216) "
-               "returns 0 instead of 2^64 - 393216; fake_exponential(1, u64::MAX, 3338477) does not return within 30 s "
+               "5448248405279283718928058 instead of 104116911553853437920042949; fake_exponential(1, u64::MAX, 3338477) does not return within 30 s "
                "(>= 5.5e12 iterations after wrapping). In debug builds the same calls panic ('attempt to multiply/add with "
-               "overflow'). So the property's clause 'never silently returns a wrapped value' is FALSE for the unchanged "
-               "tree outside the stated domain; this unit verifies the functions ON the domain only. "
+               "overflow'). So the property's clauses 'equals the EIP value whenever that value fits in 128 bits' and 'never "
+               "silently returns a wrapped value' are FALSE for fake_exponential / calc_blob_gasprice outside the stated "
+               "domain. This is RECORDED, NOT REPAIRED: the property-level contracts are kept in the unit as finding "
+               "obligations (fake_exponential__finding_fe_wraps_u128_intermediates, "
+               "calc_blob_gasprice__finding_price_wraps_u128_intermediates: `requires fe_spec(..) < 2^128 ensures r == "
+               "fe_spec(..)`), they fail with 'possible arithmetic overflow' and are listed in known_findings.txt (never "
+               "counted as discharged). Why not repaired: exactness on 192204553 .. about 2.96e8 (where the value still "
+               "fits) needs 256-bit intermediates in the Taylor loop; checked u128 arithmetic alone would only turn the "
+               "wrong value into a panic and would not restore exactness. The same defect class in calc_excess_blob_gas "
+               "(u64 sum wrapped: (u64::MAX, 1, 393216) returned 0) WAS repaired in /repo e68fb997 and its property-level "
+               "contract now verifies without precondition. "
                "WEAK CONTRACTS: BlockEnv::get_blob_gasprice / get_blob_excess_gas, Env::calc_data_fee / calc_max_data_fee "
                "are proved only for the None/Some shape of the result and for absence of panics/overflow in their closure "
                "bodies; the value inside Some(..) is NOT proved, because Verus gives an un-annotated closure (`.map(|a| ..)`) "
@@ -57,9 +65,9 @@ PROP = dict(
         "fake_exponential: denominator != 0 (otherwise it panics by assert_ne!, as documented) and fe_fits(factor, numerator, denominator)",
         "calc_blob_gasprice / BlobExcessGasAndPrice::new / BlockEnv::set_blob_excess_gas_and_price: excess_blob_gas <= 192204552 "
         "(is_prague == false) resp. <= 284284038 (is_prague == true); beyond that the u128 products overflow: release builds "
-        "return a wrapped (wrong) value or loop for > 10^12 iterations, debug builds panic -- known finding, see level_note",
-        "calc_excess_blob_gas / from_parent_and_target: parent_excess_blob_gas + parent_blob_gas_used <= u64::MAX; beyond that the "
-        "unguarded `+` wraps in release builds (e.g. (u64::MAX, 1, 393216) -> 0) and panics in debug builds",
+        "return a wrapped (wrong) value or loop for > 10^12 iterations, debug builds panic -- known finding (known_findings.txt, 2 finding obligations), see level_note",
+        "BlobExcessGasAndPrice::from_parent_and_target: max(0, parent_excess + parent_used - target) lies in the price domain above "
+        "(calc_excess_blob_gas itself has no precondition)",
         "TxEnv::get_total_blob_gas (and the two data-fee functions): blob_hashes.len() < 2^47 (a Vec<B256> that long cannot be "
         "allocated); without it GAS_PER_BLOB * len is an overflow obligation",
         "machine arithmetic is NOT treated as mathematical: every + * / on u64/u128 in the extracted bodies is an overflow / "
